@@ -293,7 +293,9 @@ func stdioRun(id int, rng *rand.Rand, maxlen int, dir string, given []T) O {
 		case x < 18:
 			a = T{"w", 0}
 		default:
-			a = T{"r", 0}
+			// (1: the process that was started from the file is stopped again before it has processed anything, and a third
+			// one is started from what IT wrote - a restart is a restart however little happened in between)
+			a = T{"r", rng.Intn(3) / 2}
 		}
 		done = append(done, a)
 		step := O{"act": a, "real": "ok", "bars": 1}
@@ -350,6 +352,20 @@ func stdioRun(id int, rng *rand.Rand, maxlen int, dir string, given []T) O {
 			check(os.WriteFile(next, js, 0644))
 			check(os.WriteFile(next+".in", js, 0644))
 			p = startProc(next+".in", next)
+			if int(toF(a[1])) == 1 {
+				p.stop()
+				carried = append(carried, p.leftovers()...)
+				gen++
+				third := filepath.Join(dir, "state"+string(rune('a'+gen%26))+".json")
+				b, err := os.ReadFile(next)
+				if err != nil {
+					step["real"] = "state-file-unreadable"
+					b = []byte("{}")
+				}
+				check(os.WriteFile(third, b, 0644))
+				check(os.WriteFile(third+".in", b, 0644))
+				p = startProc(third+".in", third)
+			}
 		}
 		em, st, _, ok := p.barrier()
 		if !ok {
